@@ -12,6 +12,7 @@ The property, for a compiled table `t`, is `Preserves g A t` below.
 -/
 import ForML.Model.Compile
 import ForML.Lemmas.C01Sem
+import ForML.Lemmas.C01Compile
 
 namespace ForML.Flow
 open Segment
@@ -90,27 +91,108 @@ theorem describes_denotes {g : Segment} {A : Option Assets} {t : Table} (h : g.d
   simp only [describes, Bool.and_eq_true, List.all_eq_true, List.contains_iff_mem, allDistinct_iff_nodup] at h
   exact ⟨fun s => ⟨h.1.1 s, h.1.2 s⟩, h.2⟩
 
-/-- Translation validation: whenever the compiler model's output passes the executable validator `describes`
-(evaluated by the driver on every explored case), it preserves the dataflow. What is missing for the full
-statement is `C01_compile_denotes_full` below. -/
-theorem C01_dataflow_validated_partial (g : Segment) (A : Option Assets) (rank : Uid → Nat) (order : List Uid)
+theorem denotes_describes {g : Segment} {A : Option Assets} {t : Table} (hd : Denotes g A t)
+    (hnd : (t.map (·.id)).Nodup) : g.describes A t = true := by
+  simp only [describes, Bool.and_eq_true, List.all_eq_true, List.contains_iff_mem, allDistinct_iff_nodup]
+  exact ⟨⟨fun s hs => (hd s).mp hs, fun s hs => (hd s).mpr hs⟩, hnd⟩
+
+/-- Translation validation (what the driver evaluates on every explored case): an output of the compiler model that
+passes the executable validator `describes` preserves the dataflow. -/
+theorem C01_dataflow_validated (g : Segment) (A : Option Assets) (rank : Uid → Nat) (order : List Uid)
     (t : Table) (hwf : g.wf rank = true) (hA : g.assetsOK A = true) (_hc : compile g A order = .ok t)
     (hv : g.describes A t = true) : Preserves g A t :=
   C01_denoted_table_preserves g A rank t hwf hA (describes_denotes hv).1 (describes_denotes hv).2
 
 /-! ### the compiler -/
 
-/-- The compiler model produces, for every visit order, exactly the denoted table (up to symbol order). -/
-def C01_compile_denotes_full : Prop :=
-  ∀ (g : Segment) (A : Option Assets) (rank : Uid → Nat) (order : List Uid),
-    g.wf rank = true → g.assetsOK A = true → g.linked A = true → order.Perm g.uids →
-      ∃ t, compile g A order = .ok t ∧ g.describes A t = true
+/-- **The compiler model produces, for every visit order, exactly the denoted table (up to symbol order), every
+instruction once**: no assertion of `Table.add` / `Linkage.insert` / `Index.set` / `__iter__` fires, arguments are
+linked by subscriber port, getters by output port, stub getters pruned, loader re-keyed, committer by list position. -/
+theorem C01_compile_denotes (g : Segment) (A : Option Assets) (rank : Uid → Nat) (order : List Uid)
+    (hwf : g.wf rank = true) (hA : g.assetsOK A = true) (hl : g.linked A = true) (hp : order.Perm g.uids) :
+    ∃ t, compile g A order = .ok t ∧ g.describes A t = true := by
+  obtain ⟨t, hc, hd, hnd⟩ := compile_denotes hwf hA hl hp
+  exact ⟨t, hc, denotes_describes hd hnd⟩
 
 /-- **C01 at full strength**: every well-formed segment, every compatible accessor, every visit order. -/
 def C01_dataflow_full : Prop :=
   ∀ (g : Segment) (A : Option Assets) (rank : Uid → Nat) (order : List Uid),
     g.wf rank = true → g.assetsOK A = true → order.Perm g.uids →
       ∃ t, compile g A order = .ok t ∧ Preserves g A t
+
+/-- **C01 for every linked segment** (all topologies with at least one subscription or one preset state; all visit
+orders; all persistent lists; unbounded): compiling succeeds and executing the compiled table yields at every worker
+exactly the value of direct graph evaluation, every instruction runs exactly once, functors correspond one-to-one to
+workers, and the new generation is committed with the trainers' states at their groups' list positions. -/
+theorem C01_dataflow_partial (g : Segment) (A : Option Assets) (rank : Uid → Nat) (order : List Uid)
+    (hwf : g.wf rank = true) (hA : g.assetsOK A = true) (hl : g.linked A = true) (hp : order.Perm g.uids) :
+    ∃ t, compile g A order = .ok t ∧ Preserves g A t := by
+  obtain ⟨t, hc, hd, hnd⟩ := compile_denotes hwf hA hl hp
+  exact ⟨t, hc, C01_denoted_table_preserves g A rank t hwf hA hd hnd⟩
+
+/-- … in particular for the order in which `Traversal.each` feeds the compiler -/
+theorem C01_dataflow_traversal (g : Segment) (A : Option Assets) (rank : Uid → Nat)
+    (hwf : g.wf rank = true) (hA : g.assetsOK A = true) (hl : g.linked A = true) (hp : g.visitOrder.Perm g.uids) :
+    ∃ t, compile g A g.visitOrder = .ok t ∧ Preserves g A t :=
+  C01_dataflow_partial g A rank g.visitOrder hwf hA hl hp
+
+/-- the visit order is irrelevant: two traversals yield the same symbols -/
+theorem C01_order_irrelevant (g : Segment) (A : Option Assets) (rank : Uid → Nat) (o₁ o₂ : List Uid) (t₁ t₂ : Table)
+    (hwf : g.wf rank = true) (hA : g.assetsOK A = true) (hl : g.linked A = true)
+    (hp₁ : o₁.Perm g.uids) (hp₂ : o₂.Perm g.uids) (h₁ : compile g A o₁ = .ok t₁) (h₂ : compile g A o₂ = .ok t₂) :
+    t₁.Perm t₂ := by
+  obtain ⟨t₁', hc₁, hd₁, hn₁⟩ := compile_denotes hwf hA hl hp₁
+  obtain ⟨t₂', hc₂, hd₂, hn₂⟩ := compile_denotes hwf hA hl hp₂
+  rw [h₁] at hc₁; rw [h₂] at hc₂
+  cases hc₁; cases hc₂
+  rw [List.perm_ext_iff_of_nodup (nodup_of_nodup_map _ hn₁) (nodup_of_nodup_map _ hn₂)]
+  intro s
+  rw [hd₁ s, hd₂ s]
+
+/-- positions: the committer's `i`-th argument is the dumper of the trainer of the `i`-th persistent group; the
+loader of the `i`-th persistent group yields the `i`-th state of the previous generation -/
+theorem C01_positions (g : Segment) (As : Assets) (rank : Uid → Nat) (order : List Uid) (t : Table)
+    (hwf : g.wf rank = true) (hA : g.assetsOK (some As) = true) (hl : g.linked (some As) = true)
+    (hp : order.Perm g.uids) (hc : compile g (some As) order = .ok t) :
+    (∀ (s : Symbol), s ∈ t → s.id = Key.committer → ∀ (i : Nat) (γ : Gid), As.persistent[i]? = some γ →
+        ∃ tw, g.trainerOf γ = some tw ∧ s.args[i]? = some (Key.dumper tw.uid)) ∧
+    (∀ (s : Symbol), s ∈ t → ∀ (γ : Gid), s.id = Key.loader γ → ∀ (i : Nat), As.persistent[i]? = some γ →
+        (run (some As) t).get (.loader γ) = some (As.prev.getD i .none)) := by
+  obtain ⟨t', hc', hd, hnd⟩ := compile_denotes hwf hA hl hp
+  rw [hc] at hc'; cases hc'
+  have h := wf_WF hwf
+  have hA' := assetsOK_AssetsOK hA
+  constructor
+  · intro s hs hid i γ hγ
+    obtain ⟨As', hAs, ⟨w, hw, hT, hP⟩, rfl⟩ := mem_committerSyms.mp (spec_committer ((hd s).mp hs) hid)
+    cases hAs
+    have hall : ∀ γ ∈ As.persistent, (g.trainerOf γ).isSome := by
+      rcases hA'.allOrNone As rfl with h1 | h1
+      · exact h1
+      · exfalso
+        obtain ⟨_, As'', hAs'', hcn⟩ := persistentW_true hP
+        cases hAs''
+        have hmem : w.gid ∈ As.persistent := (indexOf_isSome_iff _ _).mp hcn
+        have := trainerOf_none (h1 _ hmem) w hw rfl
+        simp only [isTrainer, Bool.and_eq_true] at hT
+        rw [hT.2] at this; cases this
+    obtain ⟨tw, htw⟩ := Option.isSome_iff_exists.mp (hall γ (List.mem_of_getElem? hγ))
+    refine ⟨tw, htw, ?_⟩
+    simp only
+    rw [filterMap_eq_map (h := fun γ => match g.trainerOf γ with | some t => Key.dumper t.uid | none => Key.committer)
+      (fun γ' hγ' => by
+        obtain ⟨tw', htw'⟩ := Option.isSome_iff_exists.mp (hall γ' hγ')
+        simp [htw'])]
+    rw [List.getElem?_map, hγ]
+    simp [htw]
+  · intro s hs γ hid i hγ
+    have hsym := spec_loader ((hd s).mp hs) hid
+    subst hsym
+    have hr := hd.ranked (A := some As) h
+    have hv := run_get (some As) hr hs
+    simp only at hv
+    rw [hv, hd.value_loader h rfl ((hd _).mp hs)]
+    simp only [Assets.load, Assets.offset, indexOf_of_get (hA'.nodup As rfl) hγ]
 
 /-- the single stateless worker without any subscription -/
 def loneWorker : Segment := ⟨[⟨0, 0, 0, false, 1, 1⟩], [], 0, 0, []⟩
@@ -145,6 +227,11 @@ def demoAssets : Option Assets := some ⟨[2], [.stored 0]⟩
 example : demo.wf demoRank = true := by decide +kernel
 example : demo.assetsOK demoAssets = true := by decide +kernel
 example : demo.linked demoAssets = true := by decide +kernel
+example : demo.visitOrder.Perm demo.uids := by decide +kernel
+/-- the theorem instantiated: the DESIGN shape compiles and preserves its dataflow -/
+example : ∃ t, compile demo demoAssets demo.visitOrder = .ok t ∧ Preserves demo demoAssets t :=
+  C01_dataflow_traversal demo demoAssets demoRank (by decide +kernel) (by decide +kernel) (by decide +kernel)
+    (by decide +kernel)
 example : (match compile demo demoAssets demo.visitOrder with
     | .ok t => demo.describes demoAssets t
     | .error _ => false) = true := by decide +kernel
